@@ -232,7 +232,8 @@ def h_samples(i: int, proto: int, codec: int, thr: int) -> int:
             if len(data) > len(plain):
                 return viol(what, "stored", len(data), "bytes for", len(plain), "uncompressed")
             marked = bool(flags & S.FLAG_COMPRESSED)
-            if marked != (bytes(data) != plain or (codec == 3 and marked)):
+            stored = data if isinstance(data, bytes) else data.encode("ascii")
+            if marked != (stored != plain or (codec == 3 and marked)):
                 return viol(what, "COMPRESSED flag", marked, "does not match the stored form")
         return ok("sample")
 
